@@ -14,6 +14,10 @@ depth, parameter record, state, day input and `CropDay`; every list of dated obs
 Statements are about successful calls.
 
 Stated honestly:
+* the range of the adjusted field capacity needs the law `PowSqLaw F` (`x ** 2 = x · x`,
+  `Proofs/PowSq.lean`): the parabola factor is `(zMid − (zGW − Xmax)) ** 2` in the Python, i.e.
+  C `pow(·, 2.0)`, and the model writes `F.pow · 2` there (`fcadj_range`, `day_fcadj_range`; at
+  run level the law is the field `powSq` of `CfgOK.fn`);
 * capillary rise lifts a compartment to at most `th_fc_adj + 1/20000` (or leaves it where it
   was): the code adds `min(dthMax, round(room, 4))`, and the rounded room can exceed the room
   (`cr_le_fcadj_with_slack`; needs the laws `0 < exp x`, `|round(x,4) − x| ≤ 1/20000`,
@@ -39,10 +43,10 @@ variable {α : Type} [Field α] [LinearOrder α] [IsStrictOrderedRing α]
 
 /-- With a water table, the adjusted field capacity of every (well-formed) compartment lies
 between its field capacity and saturation. -/
-theorem fcadj_range (F : Fn α) (cells : List (Cell α)) (zGW : α) (r : GwtOut α)
+theorem fcadj_range {F : Fn α} (hF : PowSqLaw F) (cells : List (Cell α)) (zGW : α) (r : GwtOut α)
     (hwf : ∀ x ∈ cells, x.c.WF) (h : checkGroundwaterTable F cells 1 zGW = some r) :
     ∀ y ∈ r.cells, y.c.WF ∧ y.c.thFC ≤ y.fcAdj ∧ y.fcAdj ≤ y.c.thS :=
-  fcAdj_range F cells zGW r hwf h
+  fcAdj_range hF cells zGW r hwf h
 
 /-- … and equals field capacity everywhere when the table is at least `Xmax` below the centre of
 the bottom compartment. -/
@@ -102,9 +106,10 @@ theorem day_table (h : waterDay F W fm C cells S D = .ok out) (hwt : W.waterTabl
 
 /-- With a water table the adjusted field capacity is within `[th_fc, th_s]` at the end of the day
 (it is written by step 1 only). -/
-theorem day_fcadj_range (h : waterDay F W fm C cells S D = .ok out) (hwt : W.waterTable = 1)
-    (hwf : ∀ x ∈ cells, x.c.WF) : ∀ y ∈ out.cells, y.c.thFC ≤ y.fcAdj ∧ y.fcAdj ≤ y.c.thS :=
-  waterDay_fcAdj_range h hwt hwf
+theorem day_fcadj_range (hF : PowSqLaw F) (h : waterDay F W fm C cells S D = .ok out)
+    (hwt : W.waterTable = 1) (hwf : ∀ x ∈ cells, x.c.WF) :
+    ∀ y ∈ out.cells, y.c.thFC ≤ y.fcAdj ∧ y.fcAdj ≤ y.c.thS :=
+  waterDay_fcAdj_range hF h hwt hwf
 
 /-! ### capillary rise -/
 
@@ -223,7 +228,7 @@ example : ∃ out, waterDay DayExample.Fq DayExample.Wq DayExample.fmq DayExampl
       DayExample.cellsq DayExample.Sq DayExample.Dq = .ok out ∧ 0 < out.cr ∧ out.gwIn = 0 ∧
     (∀ y ∈ out.cells, y.c.thFC ≤ y.fcAdj ∧ y.fcAdj ≤ y.c.thS) := by
   obtain ⟨out, h, _, hcr, _⟩ := DayExample.runs
-  refine ⟨out, h, hcr, ?_, day_fcadj_range h rfl
+  refine ⟨out, h, hcr, ?_, day_fcadj_range DayExample.Fq_sq h rfl
     (fun x hx => (DayExample.cells_pre x hx).inv.wf)⟩
   refine (day_table_below_profile_no_inflow h ?_).2
   intro x hx
